@@ -391,10 +391,22 @@ def bundleOk (b : Bundle) : Bool :=
   attrTextOk b.id && b.signers.isNone && instantOk b.inception && instantOk b.expiration
     && !b.keys.isEmpty && b.keys.all keyOk && !b.signatures.isEmpty && b.signatures.all sigOk
 
+/-- the sort key of `responsebundles_from_list_of_dicts` (and of the request loader): bundles are read
+    back in non-decreasing (expiration, inception, id) order; Python compares `str` by code points -/
+def bundleKeyLe (a b : Bundle) : Bool :=
+  decide (a.expiration < b.expiration) ||
+    (decide (a.expiration = b.expiration) &&
+      (decide (a.inception < b.inception) || (decide (a.inception = b.inception) && !decide (b.id < a.id))))
+
+/-- the bundles are already in the order the loader establishes (the signer emits them in the order of
+    the request's bundles, which the request loader sorted the same way) -/
+def bundlesSorted (bs : List Bundle) : Bool := (adjacent bs).all (fun p => bundleKeyLe p.1 p.2)
+
 def writerDomain (r : Response) : Bool :=
   r.timestamp.isNone && attrTextOk r.id && attrTextOk r.domain && decide (0 ≤ r.serial)
     && printable r.serial
     && policyOk r.kskPolicy && policyOk r.zskPolicy && !r.bundles.isEmpty && r.bundles.all bundleOk
+    && bundlesSorted r.bundles
 
 /-- the decidable domain of `skr_to_xml` that C11 speaks of -/
 def WriterDomain (r : Response) : Prop := writerDomain r = true
